@@ -3,6 +3,7 @@ package mc
 import (
 	"encoding/json"
 	"fmt"
+	"runtime/debug"
 	"sort"
 	"sync/atomic"
 
@@ -157,6 +158,7 @@ func init() {
 		schedPass(c, pick(c, 8, 9), 3, "wide.")
 		schedAligned(c)
 		schedChains(c)
+		schedLong(c)
 	}
 }
 
@@ -398,5 +400,127 @@ func schedPass(c *Ctx, nmax, depth int, tag string) {
 		c.Cov.AddTransitions(evalsN)
 		c.Cov.AddEvals(evalsN)
 		c.Cov.AddNontrivial(nontriv)
+	}
+}
+
+// ---- a very long history (more than 65 536 recorded blocks) ----
+
+type schedLongCase struct {
+	Blocks int `json:"blocks"`
+	Mem    int `json:"maxMemory"`
+}
+
+// evalSchedLong: every block adds two leaves; the first dies two blocks later, the second five
+// blocks later (a sliding population of seven). The block targets come from a real Pollard run
+// alongside (its proofs are C02's subject); the oracle is the birth/death table as in evalSched,
+// with a sweep instead of the quadratic alive count. Block indexes kept in 16 bits wrap here.
+func evalSchedLong(sc schedLongCase) (viol []Violation) {
+	rep := func(sig, detail string) {
+		for _, v := range viol {
+			if v.Sig == sig+" [very long history]" {
+				return
+			}
+		}
+		viol = append(viol, Violation{Prop: "C15", Sig: sig + " [very long history]", Detail: detail, Case: mkCase("schedlong", sc), CaseID: fmt.Sprintf("long blocks=%d m=%d", sc.Blocks, sc.Mem)})
+	}
+	defer func() {
+		if r := recover(); r != nil {
+			viol = append(viol, panicViolation("C15", r, debug.Stack(), mkCase("schedlong", sc), fmt.Sprintf("long blocks=%d m=%d", sc.Blocks, sc.Mem)))
+		}
+	}()
+	B := sc.Blocks
+	total := 2 * B
+	created := make([]int, total)
+	deleted := make([]int, total) // 0 = never
+	dying := make([][]int, B+6)
+	p := u.NewAccumulator()
+	cs := u.NewCachingScheduleTracker(B)
+	for b := 0; b < B; b++ {
+		dels := dying[b]
+		sort.Ints(dels)
+		hs := ref.Hashes(dels)
+		proof, err := p.Prove(hs)
+		if err != nil {
+			return nil // the prover is not this check's subject
+		}
+		if err := p.Modify([]u.Leaf{{Hash: ref.LeafHash(2 * b)}, {Hash: ref.LeafHash(2*b + 1)}}, hs, proof); err != nil {
+			return nil
+		}
+		for _, d := range dels {
+			deleted[d] = b
+		}
+		created[2*b], created[2*b+1] = b, b
+		dying[b+2] = append(dying[b+2], 2*b)
+		dying[b+5] = append(dying[b+5], 2*b+1)
+		cs.AddBlockSummary(append([]uint64(nil), proof.Targets...), 2)
+	}
+	sch := cs.GenerateCachingSchedule(sc.Mem)
+	if len(sch) != B {
+		rep("schedule does not have one entry per recorded block", fmt.Sprintf("%d entries for %d blocks", len(sch), B))
+		return
+	}
+	scheduled := make([]bool, total)
+	diff := make([]int, B+1)
+	for b, ps := range sch {
+		for i, pos := range ps {
+			if i > 0 && ps[i-1] >= pos {
+				rep("scheduled positions of a block are not ascending without repeats", fmt.Sprintf("block %d: %v", b, ps))
+				continue
+			}
+			if pos >= uint64(total) || created[pos] != b {
+				rep("a scheduled position is not the insertion slot of a leaf added in that block", fmt.Sprintf("maxMemory %d block %d position %d", sc.Mem, b, pos))
+				continue
+			}
+			if deleted[pos] <= b {
+				rep("a scheduled leaf is never deleted in a later recorded block", fmt.Sprintf("maxMemory %d block %d position %d", sc.Mem, b, pos))
+				continue
+			}
+			scheduled[pos] = true
+			diff[b]++
+			diff[deleted[pos]]--
+		}
+	}
+	alive := 0
+	for b := 0; b < B; b++ {
+		alive += diff[b]
+		if alive > sc.Mem {
+			rep("more scheduled leaves exist simultaneously than the memory limit", fmt.Sprintf("maxMemory %d: %d scheduled leaves alive across block %d", sc.Mem, alive, b))
+			break
+		}
+	}
+	if sc.Mem >= total {
+		for slot := 0; slot < total; slot++ {
+			if deleted[slot] > 0 && !scheduled[slot] {
+				rep("the schedule misses added-then-deleted leaves although the limit is at least the number of leaves ever alive", fmt.Sprintf("maxMemory %d: slot %d (added in block %d, deleted in block %d) is missing", sc.Mem, slot, created[slot], deleted[slot]))
+				break
+			}
+		}
+	}
+	return
+}
+
+func schedLong(c *Ctx) {
+	defer c.Phase("schedule: very long history")()
+	blocks := 1<<16 + 12
+	c.Cov.Bound["very_long_history"] = fmt.Sprintf("%d blocks, two additions per block dying 2 and 5 blocks later; limits 1, 3, 7, all", blocks)
+	mems := []int{1, 3, 7, 2 * blocks}
+	ok := parallelFor(c, len(mems), func(i int) {
+		c.Col.Add(evalSchedLong(schedLongCase{Blocks: blocks, Mem: mems[i]})...)
+		c.Cov.AddTransitions(1)
+		c.Cov.AddEvals(1)
+	})
+	if !ok {
+		c.Cov.NotExhaustive("deadline reached in the very long schedule history")
+	}
+	c.Cov.AddStates(1)
+}
+
+func init() {
+	Engines["schedlong"] = func(prop string, payload json.RawMessage) ([]Violation, error) {
+		var sc schedLongCase
+		if err := json.Unmarshal(payload, &sc); err != nil {
+			return nil, err
+		}
+		return evalSchedLong(sc), nil
 	}
 }
